@@ -276,7 +276,7 @@ func (vc *VC) execInstr(fr *Frame, st *State, pc string, in ssa.Instruction) {
 		key := vc.memKey(et)
 		h := vc.heapGet(st, key)
 		zs := arrSort(SInt, vc.sortOf(et))
-		vc.heapSet(st, key, store(h.S, r, fmt.Sprintf("((as const %s) %s)", zs, vc.zeroOf(et))))
+		vc.heapSet(st, key, store(h.S, r, vc.constArray(zs, vc.zeroOf(et))))
 		fr.vals[t] = Sym{T: Term{S: fmt.Sprintf("(mk-slice %s 0 %s %s)", r, ln.S, cp.S), Sort: SSlice, T: t.Type()}}
 	case *ssa.MakeMap:
 		mt := t.Type().Underlying().(*types.Map)
